@@ -62,7 +62,7 @@ LEVEL_TEXT = (
     "bucketed by (type, innermost ppci frame).  The input space is unbounded, so structured generation with "
     "per-construct supported/unsupported bookkeeping is the fitting level."
 )
-REGISTER = False
+REGISTER = True
 
 GCC = shutil.which("gcc")
 LEVELS = [0, 1, 2, "s"]
